@@ -82,11 +82,15 @@ class ExprMixin:
 
     def ex_JoinedStr(self, node, frame):
         amb = False
+        parts = []
         for v in node.values:
             if isinstance(v, ast.FormattedValue):
                 x = self.eval(v.value, frame)
                 amb = amb or (isinstance(x, Opaque) and x.ambient)
-        return Opaque("fstring", ambient=amb)
+                parts.append("{%s}" % (x.desc if isinstance(x, Opaque) else key_str(val_key(x))))
+            elif isinstance(v, ast.Constant):
+                parts.append(str(v.value))
+        return Opaque("f'" + "".join(parts) + "'", ambient=amb)
 
     def ex_Tuple(self, node, frame):
         return TupV([self.eval(e, frame) for e in node.elts])
@@ -167,7 +171,10 @@ class ExprMixin:
         if isinstance(l, (StrV, Opaque)) or isinstance(r, (StrV, Opaque)):
             if isinstance(op, (ast.Add, ast.Mod)) or (isinstance(op, ast.Div) and isinstance(l, Opaque)):
                 amb = any(isinstance(x, Opaque) and x.ambient for x in (l, r))
-                return Opaque("str-expr", ambient=amb)
+                sym = {ast.Add: "+", ast.Mod: "%", ast.Div: "/"}.get(type(op), "?")
+                dl = l.desc if isinstance(l, Opaque) else key_str(val_key(l))
+                dr = r.desc if isinstance(r, Opaque) else key_str(val_key(r))
+                return Opaque("(%s %s %s)" % (dl, sym, dr), ambient=amb)
             raise Unmodelled("operator on string at %s" % frame.loc(node))
         # list repetition / concatenation
         if isinstance(op, ast.Mult) and isinstance(l, ListV) and l.kind == "lit" and isinstance(r, Num):
@@ -682,6 +689,18 @@ class ExprMixin:
         finally:
             self.release_bound()
         if cond is not None:
+            # [x for x in xs if pred(x)] is the same sub-list as filter(lambda x: pred(x), xs): use the same representation
+            if isinstance(node.elt, ast.Name) and isinstance(g.target, ast.Name) and node.elt.id == g.target.id and len(cond) == 1 \
+                    and isinstance(it, ListV):
+                f2b = Frame(frame.func, frame.module, {}, frame.cls, parent=frame)
+                lo2, hi2, idx2, elem2 = self.iter_family(it, frame, node, prefix="#f")
+                try:
+                    self.assign(g.target, elem2, f2b)
+                    pv = self.eval(g.ifs[0], f2b)
+                finally:
+                    self.release_bound()
+                ty = it.ty if it.kind == "opaque" else ANY
+                return ListV("opaque", path="filter(%s | %s)" % (key_str(val_key(it)), key_str(val_key(pv))), ty=ty, filtered=(it, val_key(pv)))
             base = ListV("fam", idx=idx, lo=lo, hi=hi, elem=val)
             return ListV("opaque", path="filter(%s | %s)" % (key_str(val_key(base)), key_str(cond)), ty=ANY, filtered=(base, cond))
         return ListV("fam", idx=idx, lo=lo, hi=hi, elem=val)
